@@ -81,7 +81,10 @@ def plan_c04(tier, seed):
         add("g9", 1, 1, 2)
         add("g14a", 1, 1, 1)
         add("g6b", 1, 1, 1); add("g6b", 2, 1, 2)
+        add("g6b", 2, 1, 2, pre={"in1.txt.p": "p.out(in=in1.txt;)"}, id="C04-g6b-i2-m2-pre1")
     else:
+        add("g6b", 2, 1, 2, pre={"in1.txt.p": "p.out(in=in1.txt;)"}, id="C04-g6b-i2-m2-pre1")
+        add("g6b", 3, 1, 3, pre={"in1.txt.p": "p.out(in=in1.txt;)", "in2.txt.p": "p.out(in=in2.txt;)"}, id="C04-g6b-i3-m3-pre12")
         for g in ("g2", "g3", "g4", "g5", "g5b", "g6", "g6b", "g7", "g8", "g8b", "g9", "g12", "g14", "g14a"):
             for i in (0, 1, 2, 3):
                 for b in (1, 2):
@@ -146,6 +149,8 @@ def plan_c05(tier, seed):
         add("g11", 1, 1, 1); add("g11", 2, 1, 2)
         add("g4", 1, 1, 1); add("g5", 1, 1, 1); add("g7", 1, 1, 1); add("g8", 1, 1, 1); add("g9", 1, 1, 2)
         add("g12", 3, 1, 1)
+        # slot configurations: multi-core tasks competing for the slots (partial acquisition)
+        add("g2", 2, 1, 2, cores=[2]); add("g13", 1, 1, 2, cores=[2, 2]); add("g13", 1, 1, 3, cores=[2, 2]); add("g3", 2, 1, 2, cores=[2, 1])
         add("g3", 1, 1, 1, runto=["p"], id="C05-g3-runto-p")
         add("g11", 1, 1, 1, runto=["last"], id="C05-g11-runto-last")
     else:
@@ -157,6 +162,7 @@ def plan_c05(tier, seed):
                             continue
                         add(g, i, b, m)
         add("g12", 4, 2, 2)
+        add("g2", 2, 1, 2, cores=[2]); add("g2", 3, 1, 3, cores=[2]); add("g13", 1, 1, 2, cores=[2, 2]); add("g13", 1, 1, 3, cores=[2, 2]); add("g13", 1, 1, 3, cores=[2, 2, 1]); add("g3", 2, 1, 2, cores=[2, 1])
         add("g3", 2, 1, 2, runto=["p"], id="C05-g3-runto-p")
         add("g11", 2, 1, 2, runto=["last"], id="C05-g11-runto-last")
         add("g11", 2, 1, 2, runto=["p"], id="C05-g11-runto-p")
@@ -567,11 +573,13 @@ def plan_c02(tier, seed):
     o = ["nohang", "clean", "c02", "c04"]
     def stage1(ctx, prev):
         jobs = []
-        combos = [("g2", 2, 2, "cmd"), ("g3", 1, 1, "cmd"), ("g3", 2, 1, "func"), ("g7", 1, 2, "cmd"), ("g8", 1, 1, "cmd"), ("g6b", 2, 2, "func")]
+        combos = [("g2", 2, 2, "cmd"), ("g3", 1, 1, "cmd"), ("g3", 2, 1, "func"), ("g7", 1, 2, "cmd"), ("g8", 1, 1, "cmd"), ("g6b", 2, 1, "func"), ("g3", 1, 1, "cmd", "absout"), ("g2", 1, 1, "cmd", "subdir")]
         if tier != "quick":
             combos += [("g3", 2, 2, "cmd"), ("g6", 1, 2, "cmd"), ("g7", 2, 2, "func"), ("g4", 1, 2, "cmd"), ("g8", 2, 2, "func")]
-        for g, i, m, kind in combos:
-            jobs.append(wf("C02", g, i, 1, m, kind, mode="single", oracles=["clean"], tier=tier, events_dep=False, id=f"C02-list-{g}-i{i}-m{m}-{kind}", _list=True, args={"list_outputs": "1"}))
+        for combo in combos:
+            g, i, m, kind = combo[:4]
+            ex = {"extra": combo[4]} if len(combo) > 4 else {}
+            jobs.append(wf("C02", g, i, 1, m, kind, mode="single", oracles=["clean"], tier=tier, events_dep=False, id=f"C02-list-{g}-i{i}-m{m}-{kind}" + (f"-{combo[4]}" if len(combo) > 4 else ""), _list=True, args={"list_outputs": "1"}, **ex))
         return jobs
     def stage2(ctx, prev):
         jobs = []
@@ -601,7 +609,8 @@ def plan_c02(tier, seed):
                         nj["pre_audit"] = audit
                         nj["mode"] = "dpor"
                         nj["oracles"] = o
-                        nj["_fallback_delay"] = 2
+                        nj["budget"] = budget(tier, 25, 300)
+                        nj["_fallback_delay"] = 1 if tier == "quick" else 2
                         jobs.append(nj)
             # history: complete run, run again in place
             nj = copy.deepcopy(j)
